@@ -64,6 +64,11 @@ func reportCfg(v int) config.ReportConfiguration {
 		rc.LexicalSchemaIri = "http://sim.example/schemas/lexical.yaml"
 	case 2:
 		rc.IncludeReportCreationTime = false
+	case 3:
+		// a partially filled configuration, as a caller writes it by hand: empty schema IRIs
+		rc = config.ReportConfiguration{IncludeReportCreationTime: false}
+	case 4:
+		rc = config.ReportConfiguration{IncludeReportCreationTime: true, ReportSchemaIri: "http://sim.example/only-report.yaml"}
 	}
 	return rc
 }
@@ -88,7 +93,12 @@ func (c *Corpus) texts(op Op) (string, string) {
 func execOp(c *Corpus, op Op, handles []*rego.PreparedEvalQuery, setNow func(time.Time)) (res Res) {
 	ptxt, dtxt := c.texts(op)
 	t := instant(op.T)
-	setNow(t)
+	if op.Kind == "validate_cfg" || op.Kind == "vcompiled_cfg" {
+		// the caller configured the report time: the wall clock of the process shows something else
+		setNow(t.Add(77777 * time.Second))
+	} else {
+		setNow(t)
+	}
 	var ch *chan events.Event
 	var chv chan events.Event
 	if op.Chan {
